@@ -1,3 +1,7 @@
 ; ---- C14: ghost pin map: page id -> number of pins taken through the buffer pool and not yet released ----
 ;@ghost pins (Array Int Int)
 (define-fun pinsNonNeg ((p (Array Int Int))) Bool (forall ((i Int)) (! (>= (select p i) 0) :pattern ((select p i)))))
+; hash index header page: number of block pages and the page id of block k (uninterpreted; defined by the stubs of
+; HashTableHeaderPage.NumBlocks / GetBlockPageID)
+(declare-fun hnb (Int) Int)
+(declare-fun hblk (Int Int) Int)
